@@ -98,13 +98,22 @@ fn some_raw_name(rng: &mut Rng) -> Vec<u8> {
 
 /// Draw a script and execute it natively on `pp`.
 pub fn generate(rng: &mut Rng, pp: &mut ParsedPacket, max_ops: usize) -> Script {
+    generate_with(rng, pp, max_ops, None)
+}
+
+/// `first`: force the first operation (the selector value used below, e.g. 16 = question())
+pub fn generate_with(rng: &mut Rng, pp: &mut ParsedPacket, max_ops: usize, first: Option<usize>) -> Script {
     let mut s = Buf::default();
     let mut l = Buf::default();
     let mut ops: Vec<String> = vec![];
     let mut sigs: Vec<String> = vec![];
     let nops = rng.range(1, max_ops);
-    for _ in 0..nops {
-        match rng.below(20) {
+    for opi in 0..nops {
+        let sel = match (opi, first) {
+            (0, Some(f)) => f,
+            _ => rng.below(20),
+        };
+        match sel {
             0 => {
                 s.u8(1);
                 l.u8(1);
